@@ -1125,7 +1125,7 @@ func genCache(r *sim.Rand, idx int) caseSpec {
 	{
 		cs.Selected = sim.Pick(r, [][]string{{"id"}, {"id", "org"}, {"org"}, {}, {"id", "id"}})
 		cs.Keys = []keySpec{k0}
-		variants := []string{"method", "url", "id", "org", "ver"}
+		variants := []string{"method", "url", "id", "org", "ver", "urlcase"}
 		r.Shuffle(len(variants), func(i, j int) { variants[i], variants[j] = variants[j], variants[i] })
 		for _, vr := range variants[:r.Range(1, 3)] {
 			k := keySpec{Method: k0.Method, URL: k0.URL, Params: map[string]string{}}
@@ -1137,6 +1137,8 @@ func genCache(r *sim.Rand, idx int) caseSpec {
 				k.Method = "POST"
 			case "url":
 				k.URL = "a.com/v1/u/8"
+			case "urlcase": // the path of a URL is case-sensitive: another URL, same parameters
+				k.URL = "a.com/V1/U/7"
 			case "id":
 				k.Params["id"] = "8"
 			case "org":
@@ -1202,11 +1204,14 @@ func genThrottle(r *sim.Rand, idx int) caseSpec {
 	cs := caseSpec{Kind: "throttle", Policy: policyOf(r), FracNs: fracOf(r), RAType: sim.Pick(r, []string{"relative", "relative", "absolute"})}
 	k0 := keySpec{Method: "GET", URL: "b.com/t/1"}
 	cs.Keys = []keySpec{k0}
-	for _, vr := range sim.Pick(r, [][]string{{"method"}, {"url"}, {"method", "url"}}) {
+	for _, vr := range sim.Pick(r, [][]string{{"method"}, {"url"}, {"method", "url"}, {"urlcase"}, {"url", "urlcase"}}) {
 		k := k0
-		if vr == "method" {
+		switch vr {
+		case "method":
 			k.Method = "PUT"
-		} else {
+		case "urlcase":
+			k.URL = "b.com/T/1"
+		default:
 			k.URL = "b.com/t/2"
 		}
 		cs.Keys = append(cs.Keys, k)
